@@ -74,6 +74,11 @@ theorem termdCount_set {l : List Rep} {r : Nat} {p p' : Rep} (h : l[r]? = some p
       simp only [List.set_cons_succ, termdCount]
       omega
 
+theorem termdCount_set_same {l : List Rep} {r : Nat} {p p' : Rep} (h : l[r]? = some p)
+    (he : p'.termd = p.termd) : termdCount (l.set r p') = termdCount l := by
+  have := termdCount_set (p' := p') h
+  rw [he] at this; omega
+
 theorem termdCount_reset (l : List Rep) :
     termdCount (l.map (fun p => ({ p with lw := none, ended := false, dirty := false } : Rep)))
       = termdCount l := by
@@ -138,7 +143,6 @@ theorem inStep_term_inv {sp sp' : InSt} {r : Nat}
     by_cases htd : p.termd = true
     · rw [if_pos htd] at hin; cases hin
     · rw [if_neg htd] at hin
-      simp only at hin
       split at hin
       · rename_i hg
         cases hin
@@ -161,7 +165,6 @@ theorem inStep_far_inv {sp sp' : InSt} {r : Nat}
     by_cases htd : p.termd = true
     · rw [if_pos htd] at hin; cases hin
     · rw [if_neg htd] at hin
-      simp only at hin
       split at hin
       · cases hin
       · rename_i hne
@@ -253,7 +256,7 @@ theorem specInv_step {sp sp' : InSt} {r : Nat} {e : Elem α}
       unfold idle; exact all_set_congr hp rfl
     refine ⟨?_, ?_, ?_⟩
     · simp only [List.length_set]
-      rw [endedCount_set_same hp rfl]; exact inv.notAllEnded
+      rw [endedCount_set_same (p' := { p with termd := true }) hp rfl]; exact inv.notAllEnded
     · intro q hq htq heq
       rw [hidle]
       rcases List.mem_or_eq_of_mem_set hq with h | h
@@ -522,8 +525,7 @@ theorem step_facts {s : State} {sp sp' : InSt} {r : Nat} {e : Elem α}
     · subst hf
       obtain ⟨p, hp, htd, hpe, hguard, hsp'⟩ := inStep_far_inv hin
       obtain ⟨h1, h2, h3⟩ := step_far (α := α) rel hT hp hpe
-      have hcnt := termdCount_set (p' := { p with dirty := true, ended := true }) hp
-      simp only [htd, Bool.false_eq_true, if_false, Nat.add_zero] at hcnt
+      have hcnt := termdCount_set_same (p' := { p with dirty := true, ended := true }) hp rfl
       have hT'' : (step s (.elem r (Elem.far : Elem α))).1.missingTerm ≠ 0 := by rw [h1]; exact hT
       by_cases hall : (sp.reps.set r { p with dirty := true, ended := true }).all (·.ended) = true
       · rw [if_pos hall] at hsp' h3
@@ -549,8 +551,7 @@ theorem step_facts {s : State} {sp sp' : InSt} {r : Nat} {e : Elem α}
         · rw [h3]; simp
     · obtain ⟨p, p', hp, htd, hpe, hguard, hp't, hp'e, hp'd, hsp'⟩ := inStep_data_inv ht hf hin
       obtain ⟨h1, h2, h3⟩ := step_nonmarker (α := α) hT r ht hf
-      have hcnt := termdCount_set (p' := p') hp
-      simp only [htd, hp't, Bool.false_eq_true, if_false, Nat.add_zero] at hcnt
+      have hcnt := termdCount_set_same (p' := p') hp (by rw [hp't, htd])
       have hT'' : (step s (.elem r e)).1.missingTerm ≠ 0 := by rw [h1]; exact hT
       have hT' : RelT (step s (.elem r e)).1 sp' := by
         unfold RelT; rw [h1, h2, hsp']; simp only; omega
@@ -561,7 +562,7 @@ theorem step_facts {s : State} {sp sp' : InSt} {r : Nat} {e : Elem α}
           intro x hx
           have := (h3 x hx).2
           cases x <;> simp [Elem.isFar] at this ⊢
-        rw [this, hsp']
+        rw [this, hsp']; rfl
       · intro g _ hi _
         exfalso
         rw [hsp'] at hi
@@ -616,9 +617,10 @@ theorem master (as : List (Arrival α)) : ∀ (s : State) (sp : InSt),
   | nil =>
     intro s sp inv hT _
     have hnc := not_complete_of_live inv hT
-    simp only [elemsOf, inStateAfter, hnc]
-    refine ⟨by simp [outs, runFrom, farCount], fun h => by cases h, fun _ x hx => ?_⟩
-    simp [outs, runFrom] at hx
+    simp only [elemsOf, inStateAfter]
+    refine ⟨by simp [outs, runFrom, farCount], fun h => ?_, fun _ x hx => ?_⟩
+    · rw [hnc] at h; cases h
+    · simp [outs, runFrom] at hx
   | cons a as ih =>
     intro s sp inv hT hok
     rw [outs_cons]
@@ -689,5 +691,138 @@ theorem master (as : List (Arrival α)) : ∀ (s : State) (sp : InSt),
             simp only [List.append_nil, grammarGo]
             exact hg' hi hc
           · intro hc; rw [hcomp] at hc; cases hc
+
+/-! ### which arrival emits a `FlushAndRestart` -/
+
+theorem all_set_iff {β : Type} {f : β → Bool} {l : List β} {r : Nat} {p p' : β}
+    (h : l[r]? = some p) (hf : f p' = true) :
+    (l.set r p').all f = true ↔ ∀ i q, i ≠ r → l[i]? = some q → f q = true := by
+  induction l generalizing r with
+  | nil => simp at h
+  | cons x xs ih =>
+    cases r with
+    | zero =>
+      simp only [List.set_cons_zero, List.all_cons, hf, Bool.true_and, List.all_eq_true]
+      constructor
+      · intro hall i q hi hq
+        cases i with
+        | zero => exact absurd rfl hi
+        | succ i => simp at hq; exact hall q (List.mem_of_getElem? hq)
+      · intro hall q hq
+        obtain ⟨i, hi⟩ := List.getElem?_of_mem hq
+        exact hall (i + 1) q (by omega) (by simpa using hi)
+    | succ r =>
+      simp at h
+      simp only [List.set_cons_succ, List.all_cons, Bool.and_eq_true, ih h]
+      constructor
+      · rintro ⟨hx, hall⟩ i q hi hq
+        cases i with
+        | zero => simp at hq; subst hq; exact hx
+        | succ i => simp at hq; exact hall i q (by omega) hq
+      · intro hall
+        exact ⟨hall 0 x (by omega) (by simp),
+          fun i q hi hq => hall (i + 1) q (by omega) (by simpa using hq)⟩
+
+/-- an arrival completes at most one iteration -/
+theorem inStep_completed {sp sp' : InSt} {r : Nat} {e : Elem α} (hin : inStep sp r e = some sp') :
+    sp'.completed = sp.completed ∨ sp'.completed = sp.completed + 1 := by
+  by_cases ht : e = .term
+  · subst ht
+    obtain ⟨p, _, _, _, rfl⟩ := inStep_term_inv hin
+    exact Or.inl rfl
+  · by_cases hf : e = .far
+    · subst hf
+      obtain ⟨p, _, _, _, _, rfl⟩ := inStep_far_inv hin
+      split
+      · exact Or.inr rfl
+      · exact Or.inl rfl
+    · obtain ⟨p, p', _, _, _, _, _, _, _, rfl⟩ := inStep_data_inv ht hf hin
+      exact Or.inl rfl
+
+/-- the arrival indices at which the *contract* completes an iteration, i.e. at which the
+    `FlushAndRestart` of the last replica still missing for the iteration arrives -/
+def completionIdx (sp : InSt) (i : Nat) : List (Arrival α) → List Nat
+  | [] => []
+  | .timeout :: as => completionIdx sp (i + 1) as
+  | .elem r e :: as =>
+    match inStep sp r e with
+    | some sp' => (if sp.completed < sp'.completed then [i] else []) ++ completionIdx sp' (i + 1) as
+    | none => []
+
+/-- the arrival indices to which the model attributes its `FlushAndRestart` outputs -/
+def farIdx (l : List (Nat × Elem α)) : List Nat := (l.filter (fun p => p.2.isFar)).map (·.1)
+
+theorem farIdx_append (l1 l2 : List (Nat × Elem α)) : farIdx (l1 ++ l2) = farIdx l1 ++ farIdx l2 := by
+  simp [farIdx]
+
+theorem farIdx_tag (i : Nat) (out : List (Elem α)) :
+    farIdx (out.map (fun e => (i, e))) = List.replicate (farCount out) i := by
+  induction out with
+  | nil => rfl
+  | cons e es ih =>
+    have hc : farCount (e :: es) = farCount es + (if e.isFar then 1 else 0) := by
+      unfold farCount; rw [List.countP_cons]
+    have hf : farIdx ((e :: es).map (fun e => (i, e))) =
+        (if e.isFar then [i] else []) ++ farIdx (es.map (fun e => (i, e))) := by
+      cases e <;> rfl
+    rw [hc, hf, ih]
+    cases e <;> simp [Elem.isFar, List.replicate_succ]
+
+theorem runFrom_cons (s : State) (i : Nat) (a : Arrival α) (as : List (Arrival α)) :
+    runFrom s i (a :: as) = (step s a).2.map (fun e => (i, e)) ++ runFrom (step s a).1 (i + 1) as := rfl
+
+theorem runFrom_terminated (s : State) (h : s.missingTerm = 0) (i : Nat) (as : List (Arrival α)) :
+    runFrom s i as = [] := by
+  have := outs_terminated s h as
+  rw [← runFrom_map_snd s i] at this
+  exact List.map_eq_nil_iff.mp this
+
+theorem completionIdx_complete {sp : InSt} (hc : complete sp = true) (i : Nat) (as : List (Arrival α)) :
+    completionIdx sp i as = [] := by
+  induction as generalizing i with
+  | nil => rfl
+  | cons a as ih =>
+    cases a with
+    | timeout => simp only [completionIdx]; exact ih (i + 1)
+    | elem r e => simp only [completionIdx, complete_inStep_none hc]
+
+theorem far_positions (as : List (Arrival α)) : ∀ (s : State) (sp : InSt) (i : Nat),
+    Inv s sp → s.missingTerm ≠ 0 → inputOkFrom sp (elemsOf as) = true →
+    farIdx (runFrom s i as) = completionIdx sp i as := by
+  induction as with
+  | nil => intro s sp i _ _ _; rfl
+  | cons a as ih =>
+    intro s sp i inv hT hok
+    rw [runFrom_cons, farIdx_append, farIdx_tag]
+    cases a with
+    | timeout =>
+      have hst : step s (Arrival.timeout : Arrival α) = (s, [.flushBatch]) := by simp [step, hT]
+      rw [hst]
+      simp only [elemsOf] at hok
+      simp only [completionIdx]
+      rw [ih s sp (i + 1) inv hT hok]
+      simp [farCount, Elem.isFar]
+    | elem r e =>
+      simp only [elemsOf, inputOkFrom] at hok
+      cases hs : inStep sp r e with
+      | none => rw [hs] at hok; cases hok
+      | some sp' =>
+        rw [hs] at hok
+        simp only [completionIdx, hs]
+        obtain ⟨hcnt, _, hcase⟩ := step_facts inv hT hs
+        have hhead : List.replicate (farCount (step s (.elem r e)).2) i =
+            (if sp.completed < sp'.completed then [i] else []) := by
+          rcases inStep_completed hs with h | h
+          · have h0 : farCount (step s (.elem r e)).2 = 0 := by omega
+            have hlt : ¬ sp.completed < sp'.completed := by omega
+            rw [h0, if_neg hlt]; rfl
+          · have h1 : farCount (step s (.elem r e)).2 = 1 := by omega
+            have hlt : sp.completed < sp'.completed := by omega
+            rw [h1, if_pos hlt]; rfl
+        rw [hhead]
+        congr 1
+        rcases hcase with ⟨hT', inv', _⟩ | ⟨hT', _, hcomp, _⟩
+        · exact ih _ sp' (i + 1) inv' hT' hok
+        · rw [runFrom_terminated _ hT', completionIdx_complete hcomp]; rfl
 
 end Noir.Start
